@@ -79,6 +79,14 @@ func runC03(t *testing.T, tape *sim.Tape, tier string) *Outcome {
 	for i := range inject {
 		inject[i] = cfg.ErrRate > 0 && tape.Draw(8, "inject") < cfg.ErrRate
 	}
+	degenerate := make([]int, 6*len(reqs)+8)
+	if tape.Draw(3, "degenerate") == 2 {
+		for i := range degenerate {
+			if tape.Draw(3, "degen") == 2 {
+				degenerate[i] = 1 + tape.Draw(2, "degenkind")
+			}
+		}
+	}
 	c := newConnRun(tape, o)
 	c.chunkMode = cfg.Chunk
 	c.setReqs(reqs)
@@ -95,6 +103,22 @@ func runC03(t *testing.T, tape *sim.Tape, tier string) *Outcome {
 				injectedReq[c.reqOfCall[ri]] = true
 			}
 			return nil, errors.New("E" + wl.Tok(call.Seq))
+		}
+		if call.Seq < len(degenerate) && degenerate[call.Seq] > 0 {
+			// stored values a real store may well hold: empty strings, empty collections, absent keys
+			o.stat("degenerate_handler_value", 1)
+			switch call.Method {
+			case "Get", "HGet", "LIndex":
+				if degenerate[call.Seq] == 1 {
+					v := resp.Bs("")
+					return &v, nil
+				}
+				v := resp.NullBulk()
+				return &v, nil
+			case "Keys", "SMembers", "LRange", "HGetAll", "ZRange", "ZRangeByScore":
+				v := resp.Ar()
+				return &v, nil
+			}
 		}
 		return wl.DefaultResult(call)
 	}
